@@ -73,6 +73,15 @@ def cart (L : Int) : Outcome :=
     { decision := "read", writes := cartFixed ++ [{ dst := "tag_text", cap := cartTagCap, off := 0, n := L - cartMin }], vals := [L - cartMin] }
   else { decision := "read", writes := cartFixed, vals := [0] }
 
+/-- SFC_GET_CART_INFO (cart_var_get) after a cart chunk of L bytes was read: bytes copied out of the cart_16k block
+    (sizeof (SF_CART_INFO_16K) bytes) into the caller's `datasize` bytes: min (datasize, offsetof tag_text + tag_text_size).
+    The reader sets tag_text_size only when L > 2048.  Since fix 0005 the block is calloc'ed (tag_text_size = 0 otherwise);
+    before (`old`), cart_var_alloc used malloc and `stale` — whatever the heap held — was used. -/
+def cartGetSize (old : Bool) (L datasize stale : Int) : Int :=
+  let tts := if L > cartMin then L - cartMin else (if old then stale else 0)
+  let want := cartTagOff + tts
+  if datasize < want then datasize else want
+
 /-! ### wavlike_read_peak_chunk / the AIFF PEAK case: chunk size must be 8 + 8 * channels; peak_info_calloc (channels) -/
 def peak (L ch : Int) : Outcome :=
   if L ≠ 8 + ch * 8 then { decision := "bad-size" }
@@ -127,10 +136,11 @@ def smpl (L lc r : Int) : Outcome :=
     let final := if actual > instLoops then instLoops else if lc ≠ actual then actual else lc
     { decision := "read", writes := [{ dst := "loops", cap := instLoops, off := 0, n := stored }], vals := [final, actual] }
 
-/-! ### aiff.c NAME / AUTH / (c) / ANNO: the text is read into ubuf (BUF_UNION) -/
-def aiffText (size : Int) : Outcome :=
+/-! ### aiff.c NAME / AUTH / (c) / ANNO: the text is read into ubuf (BUF_UNION).  Each case has its own threshold
+    `chunk_size >= sizeof (ubuf.scbuf) - slack` : slack = 0 for (c), 1 for AUTH, 2 for NAME and ANNO -/
+def aiffText (slack size : Int) : Outcome :=
   if size = 0 then { decision := "empty" }
-  else if size ≥ scbuf - 1 then { decision := "too-big" }
+  else if size ≥ scbuf - slack then { decision := "too-big" }
   else { decision := "read", writes := [{ dst := "ubuf", cap := scbuf, off := 0, n := size + size % 2 }, { dst := "ubuf", cap := scbuf, off := size, n := 1 }], vals := [size] }
 
 /-! ### aiff.c MARK: calloc (mark_count) + psf_cues_alloc (mark_count), then per marker a pascal string of `ch` bytes
